@@ -96,11 +96,27 @@ Record conn_case := {
   k_cmp_relay : bool;              (* min / prefix: compare the bytes the covert side received *)
   k_late : bspec;                  (* sent on the live connection after the first flight *)
   k_echo : bspec;                  (* received by the covert echo server *)
+  k_mark_first : bool;             (* the MarkActive publication was observed before the relay's first Read/Write *)
   k_replay : option (N * N)        (* length and hash of the first non-empty Read the relay made on the
                                       connection it was handed (the buffered-replay step) *)
 }.
 
 Definition hyps_limit : nat := 400.
+
+(* position of the first action satisfying f *)
+Fixpoint index_of (f : action -> bool) (tr : list action) : option nat :=
+  match tr with
+  | [] => None
+  | a :: r => if f a then Some 0 else option_map S (index_of f r)
+  end.
+Definition is_mark_action (a : action) : bool := match a with AMarkActive _ => true | _ => false end.
+Definition is_relay_action (a : action) : bool := match a with ARelay _ _ => true | _ => false end.
+(* in the handler's trace the registration is marked active before the relay is entered *)
+Definition mark_before_relay (tr : list action) : bool :=
+  match index_of is_mark_action tr, index_of is_relay_action tr with
+  | Some i, Some j => i <? j
+  | _, _ => false
+  end.
 
 Section WithTable.
   Variable tbl : list pfx.
@@ -129,6 +145,9 @@ Section WithTable.
       match found_matches cs f with
       | Some (r, c) =>
         k_used k &&
+        (* order of the handler's actions once it has decided: the model's trace against the observed
+           order of the MarkActive publication and the relay's first call on the connection *)
+        Bool.eqb (mark_before_relay (finish 0 0 [(tid_of (fst f), WFound r c)] buf [])) (k_mark_first k) &&
         (if k_cmp_relay k
          then bspec_matches (k_echo k)
                 (relay_stream c buf rest ++ skipn (sum_sizes (k_reads k)) stream ++ bspec_val (k_late k))
